@@ -168,6 +168,29 @@ def run(rec):
                         dev = np.linalg.norm(d - exp) / np.linalg.norm(exp)
                         eps = getattr(err, 'eps', 0.) if err is not None else 0.
                         rec.check(dev < 1e-6 + 10 * np.sqrt(abs(eps)), f'apply[{method}]:state', f'relative deviation {dev}, reported eps {eps}', inp)
+                    # the norm that the state already carries is kept (an unnormalised input; the operator applied twice)
+                    for variant in ('input of norm 0.6', 'applied twice'):
+                        p = psi.copy()
+                        if variant == 'input of norm 0.6':
+                            p.norm = 0.6
+                            exp_v, times = 0.6 * exp, 1
+                        else:
+                            exp_v, times = Hd @ exp, 2
+                        if np.linalg.norm(exp_v) < 1e-8:
+                            continue
+
+                        def app_v():
+                            e = None
+                            for _ in range(times):
+                                e = app()
+                            return e
+                        ok, err = rec.guarded(f'apply[{method}]:exception', app_v, dict(inp, variant=variant))
+                        if ok:
+                            d = mpsgen.dense_state(p).reshape(-1)
+                            dev = np.linalg.norm(d - exp_v) / np.linalg.norm(exp_v)
+                            eps = getattr(err, 'eps', 0.) if err is not None else 0.
+                            rec.check(dev < 1e-6 + 10 * np.sqrt(abs(eps)), f'apply[{method}]({variant}):state',
+                                      f'relative deviation {dev}, reported eps {eps}', dict(inp, variant=variant))
         # propagators: error order in t (Hermitian nearest-neighbour H)
         L = 4
         sites = [fam() for _ in range(L)]
